@@ -19,6 +19,7 @@ import (
 	"runtime"
 	"sync"
 	"sync/atomic"
+	"unsafe"
 
 	"github.com/cloudwego/netpoll"
 	"github.com/cloudwego/netpoll/internal/runner"
@@ -90,9 +91,11 @@ type queueTrigger struct {
 
 // Add adds to q.getters[shard]
 func (q *ShardQueue) Add(gts ...WriterGetter) {
+	vp(vpqAddState, unsafe.Pointer(q), 0, 0)
 	if atomic.LoadInt32(&q.state) != active {
 		return
 	}
+	vp(vpqAddIdx, unsafe.Pointer(q), 0, 0)
 	shard := atomic.AddInt32(&q.idx, 1) % q.size
 	q.lock(shard)
 	trigger := len(q.getters[shard]) == 0
@@ -104,15 +107,19 @@ func (q *ShardQueue) Add(gts ...WriterGetter) {
 }
 
 func (q *ShardQueue) Close() error {
+	vp(vpqCloseCAS, unsafe.Pointer(q), 0, 0)
 	if !atomic.CompareAndSwapInt32(&q.state, active, closing) {
 		return fmt.Errorf("shardQueue has been closed")
 	}
 	// wait for all tasks finished
 	for atomic.LoadInt32(&q.state) != closed {
+		vp(vpqCloseLoop, unsafe.Pointer(q), 0, 0)
 		if atomic.LoadInt32(&q.trigger) == 0 {
+			vp(vpqCloseStore, unsafe.Pointer(q), 0, 0)
 			atomic.StoreInt32(&q.state, closed)
 			return nil
 		}
+		vp(vpqCloseSpin, unsafe.Pointer(q), 0, 0)
 		runtime.Gosched()
 	}
 	return nil
@@ -120,11 +127,13 @@ func (q *ShardQueue) Close() error {
 
 // triggering shard.
 func (q *ShardQueue) triggering(shard int32) {
+	vp(vpqListLock, unsafe.Pointer(q), int64(shard), 0)
 	q.listLock.Lock()
 	q.w = (q.w + 1) % q.size
 	q.list[q.w] = shard
 	q.listLock.Unlock()
 
+	vp(vpqTriggerAdd, unsafe.Pointer(q), 0, 0)
 	if atomic.AddInt32(&q.trigger, 1) > 1 {
 		return
 	}
@@ -133,12 +142,15 @@ func (q *ShardQueue) triggering(shard int32) {
 
 // foreach swap r & w. It's not concurrency safe.
 func (q *ShardQueue) foreach() {
+	vp(vpqRunNumAdd, unsafe.Pointer(q), 0, 0)
 	if atomic.AddInt32(&q.runNum, 1) > 1 {
 		return
 	}
 	runner.RunTask(nil, func() {
 		var negNum int32 // is negative number of triggerNum
+		vp(vpqTriggerLoad, unsafe.Pointer(q), 0, 0)
 		for triggerNum := atomic.LoadInt32(&q.trigger); triggerNum > 0; {
+			vp(vpqRingRead, unsafe.Pointer(q), 0, 0)
 			q.r = (q.r + 1) % q.size
 			shared := q.list[q.r]
 
@@ -153,19 +165,24 @@ func (q *ShardQueue) foreach() {
 			q.deal(q.swap)
 			negNum--
 			if triggerNum+negNum == 0 {
+				vp(vpqTriggerSub, unsafe.Pointer(q), int64(negNum), 0)
 				triggerNum = atomic.AddInt32(&q.trigger, negNum)
 				negNum = 0
 			}
 		}
+		vp(vpqFlush, unsafe.Pointer(q), 0, 0)
 		q.flush()
 
 		// quit & check again
+		vp(vpqRunNumStore, unsafe.Pointer(q), 0, 0)
 		atomic.StoreInt32(&q.runNum, 0)
+		vp(vpqExitCheck, unsafe.Pointer(q), 0, 0)
 		if atomic.LoadInt32(&q.trigger) > 0 {
 			q.foreach()
 			return
 		}
 		// if state is closing, change it to closed
+		vp(vpqStateCAS, unsafe.Pointer(q), 0, 0)
 		atomic.CompareAndSwapInt32(&q.state, closing, closed)
 	})
 }
@@ -199,12 +216,15 @@ func (q *ShardQueue) flush() {
 
 // lock shard.
 func (q *ShardQueue) lock(shard int32) {
+	vp(vpqShardLock, unsafe.Pointer(q), int64(shard), 0)
 	for !atomic.CompareAndSwapInt32(&q.locks[shard], 0, 1) {
+		vp(vpqShardLockSpn, unsafe.Pointer(q), int64(shard), 0)
 		runtime.Gosched()
 	}
 }
 
 // unlock shard.
 func (q *ShardQueue) unlock(shard int32) {
+	vp(vpqShardUnlock, unsafe.Pointer(q), int64(shard), 0)
 	atomic.StoreInt32(&q.locks[shard], 0)
 }
